@@ -121,7 +121,7 @@ def rtc_lanczos(dtname, kinds, tier):
             init = ["supplied1", "supplied3", "random1", "supplied1", "random2"][(i + 2 * vv) % 5]
             seed += 1
             torch.set_default_dtype(torch.float64 if (seed % 2 == 0 and dt == torch.float32) else torch.float32)  # default dtype != operator dtype in half of the cases (one OS process per unit: no restore needed)
-            g = K.zoo.gen(30000 + seed)
+            g = K.gen(30000 + seed)
             A = _psd(K, g, batch, n, kind, cond, dt)
             nv = {"supplied1": 1, "supplied3": 3, "random1": 1, "random2": 2}[init]
             v = K.zoo.rn(g, *batch, n, nv, dtype=dt) if init.startswith("supplied") else None
@@ -135,7 +135,7 @@ def rtc_lanczos(dtname, kinds, tier):
                 grp = f"{kind}-{dtname}"
                 if min(mi, n) == 1:
                     grp = f"budget_one-{dtname}"  # own group: min(max_iter, n) = 1 (1x1 matrices, max_iter = 1)
-                torch.manual_seed(seed)
+                torch.manual_seed(seed + 7919 * K.SEED)
                 with settings.debug(bool(seed % 2)):
                     done, out = rec.guard(f"run/{grp}", lab, lambda: lanczos_tridiag(A.matmul, mi, dtype=dt, device=A.device, matrix_shape=A.shape[-2:], batch_shape=A.shape[:-2],
                                                                                       init_vecs=v, num_init_vecs=nv))
@@ -170,7 +170,7 @@ def rtc_lanczos_special(tier):
             _check_qt(K, rec, grp, lab, A, v, mi, out[0], out[1], nv, batch, dt, loose=True)
 
     for dtname, dt in K.DT.items():
-        g = K.zoo.gen(77)
+        g = K.gen(77)
         for n in ([2, 3, 5, 9, 20] if tier == "quick" else [2, 3, 4, 5, 7, 9, 14, 20, 40]):
             eye = torch.eye(n, dtype=dt)
             D = torch.diag(torch.arange(1, n + 1, dtype=dt))
@@ -318,19 +318,21 @@ def rtc_consumers(dtname, kinds, tier):
                 jitter = [1e-6, 0.0, 1e-3][(i + vv + k) % 3]
                 seed += 1
                 torch.set_default_dtype(torch.float64 if (seed % 2 == 0 and dt == torch.float32) else torch.float32)  # default dtype != operator dtype in half of the cases (one OS process per unit: no restore needed)
-                g = K.zoo.gen(40000 + seed)
+                g = K.gen(40000 + seed)
                 A = _psd(K, g, batch, n, kind, cond, dt)
                 A64 = A.double()
                 pd = not kind.startswith("rankdef")
                 idxs = list(itertools.product(*[range(s) for s in batch])) if batch else [()]
                 lab = _lab(dt=dtname, kind=kind, cond=f"{cond:g}", n=n, b=batch, k=k, jitter=f"{jitter:g}")
-                sfx = f"{dtname}" if k > 1 else f"budget_one-{dtname}"
+                # groups: one per spectrum family (families whose Krylov space is exhausted inside the budget have their own
+                # failure modes), except for the two input classes that fail as a whole
+                sfx = f"{kind}-{dtname}" if k > 1 else f"budget_one-{dtname}"
                 if batch == (1, 2) and k > 1:
-                    sfx = "leading_singleton_batch-" + sfx  # own group: several batch dimensions, the first of size 1
-                full = k >= n and kind not in ("repeated",) and pd
+                    sfx = f"leading_singleton_batch-{dtname}"  # own group: several batch dimensions, the first of size 1
+                full = k >= n and kind in ("uniform", "geometric")  # well separated spectra: the Krylov space of a generic vector is the whole space also numerically
                 with settings.max_root_decomposition_size(k), settings.tridiagonal_jitter(jitter):
                     # ---- root_decomposition(method="lanczos") (random start vector)
-                    torch.manual_seed(seed)
+                    torch.manual_seed(seed + 7919 * K.SEED)
                     done, out = rec.guard(f"root_decomposition/{sfx}", lab, lambda: DenseLinearOperator(A).root_decomposition(method="lanczos").root.to_dense())
                     if done:
                         Rt = out
@@ -341,7 +343,7 @@ def rtc_consumers(dtname, kinds, tier):
                                 F = Rt[bi].double()
                                 _compression_checks(K, rec, f"root_decomposition_compression/{sfx}", lab + f"|member={bi}", A64[bi], F @ F.mT, F, jitter, dt, full)
                     # ---- diagonalization(method="lanczos")
-                    torch.manual_seed(seed)
+                    torch.manual_seed(seed + 7919 * K.SEED)
                     done, out = rec.guard(f"diagonalization/{sfx}", lab, lambda: DenseLinearOperator(A).diagonalization(method="lanczos"))
                     if done:
                         evals, evecs = out
@@ -355,6 +357,8 @@ def rtc_consumers(dtname, kinds, tier):
                                 dg = torch.diagonal(G)
                                 okorth = bool(((G - torch.diag(dg)).abs().max() <= (1e-8 if dt == torch.float64 else 5e-5)) and (((dg - 1).abs() <= (1e-8 if dt == torch.float64 else 5e-5)) | (dg == 0)).all())
                                 rec.check(f"diagonalization_orthonormal/{sfx}", lab + f"|member={bi}", okorth, f"eigenvector matrix not orthonormal (masked columns must be zero): max offdiag {(G - torch.diag(dg)).abs().max().item():.3e}")
+                                if not okorth:
+                                    continue  # (one root cause per group: the compression identities presuppose an orthonormal basis)
                                 M = (Eb * sb) @ Eb.mT
                                 # loose: a perturbation of the size of the jitter times the dimension; sharp: the form c*P
                                 ev_ = torch.linalg.eigvalsh(A64[bi])
@@ -417,7 +421,7 @@ def rtc_consumers(dtname, kinds, tier):
                             elif done:
                                 rec.check(f"root_inv_decomposition_cached_root/{sfx}", lab2, False, f"cached root has shape {tuple(Rc.shape)}")
     # ---- lanczos_tridiag_to_diag: masks exactly the negative Ritz values
-    g = K.zoo.gen(4711)
+    g = K.gen(4711)
     for j in ([1, 2, 5, 31, 32, 40] if tier == "quick" else [1, 2, 3, 5, 9, 31, 32, 33, 40, 64]):
         for batch in K.BATCHES:
             for shift in (0.0, 0.6):
@@ -458,8 +462,8 @@ def rtc_consumers_zoo(case_names, tier):
     import zlib
 
     def rebuild(c, dt, zb, zn):
-        s_ = zlib.crc32(repr((c.name, str(dt), zb, zn, 0)).encode()) % (2**31)
-        return c.build(zoo.gen(s_), dt, zb, zn)
+        s_ = zlib.crc32(repr((c.name, str(dt), zb, zn, K.SEED)).encode()) % (2**31)
+        return c.build(K.gen(s_), dt, zb, zn)
 
     zsizes = [1, 2, 4, 6] if tier == "quick" else [1, 2, 3, 4, 6, 9]
     zbatches = [(), (2,), (1,), (2, 3)] if tier == "quick" else [(), (2,), (1,), (2, 3), (1, 2)]
@@ -492,9 +496,8 @@ def rtc_consumers_zoo(case_names, tier):
         gname = lead1 + f"{c.name}" + ("-scalar_matrix" if scalar else "")
         for k in sorted({2, n + 1}):
             lab = f"{label}|k={k}"
-            full = k >= n
             with settings.max_root_decomposition_size(k), settings.tridiagonal_jitter(0.0):
-                torch.manual_seed(n + k)
+                torch.manual_seed(n + k + 7919 * K.SEED)
                 fresh = rebuild(c, dt, zb, zn)[0]
                 done, Rt = rec.guard(f"zoo_root_lanczos/{gname}", lab, lambda: fresh.root_decomposition(method="lanczos").root.to_dense())
                 if done:
@@ -505,7 +508,7 @@ def rtc_consumers_zoo(case_names, tier):
                             F = Rt[bi].double()
                             # random start vector: the Krylov space may be smaller than n for structured operators
                             _compression_checks(K, rec, f"zoo_root_lanczos/{gname}", lab + f"|member={bi}", D[bi], F @ F.mT, F, 0.0, dt, False)
-                torch.manual_seed(n + k)
+                torch.manual_seed(n + k + 7919 * K.SEED)
                 fresh = rebuild(c, dt, zb, zn)[0]
                 done, out = rec.guard(f"zoo_diagonalization_lanczos/{gname}", lab, lambda: fresh.diagonalization(method="lanczos"))
                 if done:
@@ -517,7 +520,7 @@ def rtc_consumers_zoo(case_names, tier):
                         for bi in idxs:
                             Eb = E[bi].double()
                             _compression_checks(K, rec, f"zoo_diagonalization_lanczos/{gname}", lab + f"|member={bi}", D[bi], (Eb * evals[bi].double()) @ Eb.mT, Eb, 0.0, dt, False)
-                g = zoo.gen(n)
+                g = K.gen(n)
                 iv = zoo.rn(g, *batch, n, 1, dtype=dt)
                 fresh = rebuild(c, dt, zb, zn)[0]
                 done, Ri = rec.guard(f"zoo_root_inv_lanczos/{gname}", lab, lambda: fresh.root_inv_decomposition(initial_vectors=iv, method="lanczos").root.to_dense())
